@@ -7,6 +7,7 @@ package pebbledb
 
 import (
 	"fmt"
+	"math"
 	"os"
 	"sort"
 	"strings"
@@ -37,6 +38,10 @@ func c06Sig(sp *storeProbes, id string, topo, fuzzy, ev int) detection.Signature
 		s.EntropyScore, s.EntropyTolerance = 4.99994, 0
 	case 1:
 		s.EntropyScore, s.EntropyTolerance = 4.99996, 0.5
+	case 3: // entropy zero ...
+		s.EntropyScore, s.EntropyTolerance = 0, 0.5
+	case 4: // ... and the other zero (equal as a number, inside the documented range [0,8])
+		s.EntropyScore, s.EntropyTolerance = math.Copysign(0, -1), 0.5
 	default: // the score of ev=1 with a narrow tolerance: an update that changes the tolerance only
 		s.EntropyScore, s.EntropyTolerance = 4.99996, 0.05
 	}
@@ -57,6 +62,10 @@ func c06Ops(sp *storeProbes) []storeOp {
 	}
 	for _, id := range []string{"A", "B"} {
 		s := c06Sig(sp, id, 0, 0, 2)
+		ops = append(ops, storeOp{Kind: "add", Sigs: []detection.Signature{s}, Name: "Add(" + s.Name + ")"})
+	}
+	for _, ev := range []int{3, 4} {
+		s := c06Sig(sp, "A", 0, 0, ev)
 		ops = append(ops, storeOp{Kind: "add", Sigs: []detection.Signature{s}, Name: "Add(" + s.Name + ")"})
 	}
 	b := func(name string, sigs ...detection.Signature) {
